@@ -11,13 +11,18 @@ General theorems (all inputs) about the model: coq/Props/C14.v.
 """
 import json
 
+import copy
+
 from harness.core import Ctx, VERIF, clist, guarded, pmap
+from harness.props import C14_hard as H
 
 ID = "C14"
 ANCHORS = ["solvor/scc.py"]
 FINDING_CLASS = "scc_outside_neighbours"   # class name of a (possible) known-findings entry
 IMPORTS = "From SV Require Import C14.Scc C14.SccSpec."
 SPEC_MAX_N = 10
+COQ_MAX_N, COQ_MAX_E = 70, 400        # correspondence (vm_compute of the assoc-list model) stays cheap below this
+SMALL_ORACLE_N = 14                   # brute-force closure oracle up to here, linear-time reference oracle above
 
 
 # ---------------------------------------------------------------- generators
@@ -118,9 +123,38 @@ def gen_case(rng, big=False, kind=None):
     if kind == "dupnodes":
         for _ in range(rng.randint(1, 2)):
             nodes.insert(rng.randrange(len(nodes) + 1), rng.choice(nodes))
-    label = "int" if edges_variant else rng.choice(["int", "int", "str", "tuple", "iter"])
-    return {"nodes": nodes, "adj": [[u, list(ws)] for u, ws in sorted(adj.items()) if ws], "kind": kind,
-            "label": label, "edges_variant": edges_variant}
+    case = {"nodes": nodes, "adj": [[u, list(ws)] for u, ws in sorted(adj.items()) if ws], "kind": kind,
+            "label": "int", "edges_variant": edges_variant}
+    decorate(rng, case)
+    return case
+
+
+def all_ids(case):
+    ids = []
+    for v in case["nodes"]:
+        ids.append(v)
+    for u, ws in case["adj"]:
+        ids.append(u)
+        ids.extend(ws)
+    return sorted(set(ids))
+
+
+def decorate(rng, case):
+    """Classes L, M, I, O of HARDENING.md: label map, iterable kinds, edge container, second backend."""
+    if case.get("edges_variant"):
+        case["label"] = "int"
+        case["nodes_kind"] = rng.choice(["list", "tuple", "range", "iter", "gen"])
+        case["edges_kind"] = rng.choice(["list_tuples", "list_tuples", "list_lists", "tuple_tuples"])
+        case["backend2"] = rng.choice([None, "auto", "rust"])
+    else:
+        case["label"] = rng.choice(["int", "str", "tuple", "bigint", "pool", "pool", "pool"])
+        case["nodes_kind"] = rng.choice(H.NODE_KINDS)
+        if case["label"] == "pool":
+            case["labels"] = H.pool_labels(rng, all_ids(case))
+    case["nbr_kind"] = rng.choice(H.NBR_KINDS)
+    if has_dup_nodes(case) and case["nodes_kind"] in ("dictkeys", "range"):
+        case["nodes_kind"] = "tuple"
+    return case
 
 
 FIXED = [
@@ -137,6 +171,14 @@ FIXED = [
     {"nodes": [0, 1, 2, 3, 4], "adj": [[0, [1]], [1, [2]], [2, [0, 3]], [3, [4]], [4, [3]]]},
     {"nodes": [0, 1, 2], "adj": [[0, [7]], [1, [0, 8]], [7, [1]]]},
 ]
+# labels named in HARDENING.md class L on the smallest shapes: None / falsy / equal-but-not-identical objects as nodes
+for _shape in ([[0], []], [[0], [[0, [0]]]], [[1, 0], [[1, [0]]]], [[2, 1, 0], [[2, [1]], [1, [0]]]], [[0, 1, 2], [[0, [1]], [1, [2]], [2, [0]]]],
+               [[0, 1, 2], [[0, [1]], [1, [0, 2]]]], [[1, 0], [[1, [0, 9]], [0, [0]]]]):
+    for _sp in (["none"], ["false"], ["zero"], ["zerof"], ["estr"], ["etuple"], ["efset"], ["int", 2 ** 53 + 1], ["int", 257]):
+        _ids = sorted({x for x in _shape[0]} | {w for _, ws in _shape[1] for w in ws})
+        FIXED.append({"nodes": list(_shape[0]), "adj": [[u, list(ws)] for u, ws in _shape[1]], "label": "pool", "kind": "fixed-label",
+                      "edges_variant": False, "nbr_kind": "fresh",
+                      "labels": [[i, _sp if i == 0 else (["str", "x%d" % i] if i % 2 else ["int", 1000 + i])] for i in _ids]})
 for _c in FIXED:
     _c.setdefault("kind", "fixed")
     _c.setdefault("label", "int")
@@ -153,22 +195,22 @@ def has_dup_nodes(case):
 
 
 # ---------------------------------------------------------------- implementation runs
-def _lab(mode):
-    if mode == "str":
-        return (lambda i: f"n{i}"), (lambda s: int(s[1:]))
-    if mode == "tuple":
-        return (lambda i: (i % 3, i)), (lambda t: t[1])
-    return (lambda i: i), (lambda i: i)
-
-
 def edges_of(case):
     """Edge list whose per-source order equals the adjacency lists (sources interleaved deterministically)."""
     out = []
-    lists = [(u, list(ws)) for u, ws in case["adj"]]
-    while any(ws for _, ws in lists):
-        for u, ws in reversed(lists):
-            if ws:
-                out.append((u, ws.pop(0)))
+    lists = [(u, ws) for u, ws in case["adj"]]
+    pos = [0] * len(lists)
+    live = list(range(len(lists) - 1, -1, -1))
+    while live:
+        nxt = []
+        for k in live:
+            u, ws = lists[k]
+            if pos[k] < len(ws):
+                out.append((u, ws[pos[k]]))
+                pos[k] += 1
+                if pos[k] < len(ws):
+                    nxt.append(k)
+        live = nxt
     return out
 
 
@@ -176,66 +218,148 @@ def _norm(res):
     return res if res[0] == "ok" else ("exc", res[0] if res[0] == "hang" else res[1], res[2] if len(res) > 2 else "")
 
 
+def _canon(x):
+    return x.r if isinstance(x, H.Unknown) else x
+
+
 def run_impl(case):
+    """All public functions of solvor/scc.py on one case -> {'scc','topo','cond'[, 'scc_e','topo_e','scc_e2','topo_e2'], 'alias'}.
+    'alias' lists violations of class A: an input object was modified, or an answer changed when the same input objects were
+    passed again (after the first results had been mutated by the caller, functions called in the opposite order)."""
     from solvor.scc import (condense, strongly_connected_components, strongly_connected_components_edges,
                             topological_sort, topological_sort_edges)
 
-    f, inv = _lab(case["label"])
-    adj = {f(u): [f(w) for w in ws] for u, ws in case["adj"]}
+    f, inv = H.labeler(case)
+    nk, bk = case.get("nodes_kind", "list"), case.get("nbr_kind", "list")
+    if case.get("label") == "iter":                       # round-1 replay files
+        nk = bk = "iter"
+    big = bool(case.get("big"))
+    need = int(case.get("depth", 0)) if big else 0
+    adj_nat = {u: ws for u, ws in case["adj"]}
+    adj = {f(u): [f(w) for w in ws] for u, ws in case["adj"]}            # the caller's own objects
     nodes = [f(v) for v in case["nodes"]]
-    if case["label"] == "iter":
-        nb = lambda v: iter(adj.get(v, []))          # noqa: E731
-        nodes_arg = iter(nodes)
-    else:
-        nb = lambda v: adj.get(v, [])                # noqa: E731
-        nodes_arg = nodes
-    out = {}
+    adj0, nodes0 = copy.deepcopy(adj), copy.deepcopy(nodes)
+    ncalls = [0]
+
+    def nb(v):
+        ncalls[0] += 1
+        if bk == "fresh":                                 # equal-but-not-identical label objects on every call
+            i = inv(v)
+            return [f(w) for w in adj_nat.get(i, [])] if not isinstance(i, H.Unknown) else []
+        return H.wrap(bk, adj.get(v, []))
+
+    def nodes_arg():
+        return H.wrap(nk, nodes)
 
     def scc_call():
-        r = strongly_connected_components(nodes_arg if case["label"] != "iter" else iter(nodes), nb)
-        return {"status": r.status.name, "objective": r.objective, "comps": [[inv(x) for x in c] for c in r.solution]}
+        r = strongly_connected_components(nodes_arg(), nb)
+        return r, {"status": r.status.name, "objective": r.objective, "comps": [[inv(x) for x in c] for c in r.solution]}
 
     def topo_call():
-        r = topological_sort(nodes if case["label"] != "iter" else iter(nodes), nb)
-        return {"status": r.status.name, "objective": r.objective,
-                "order": None if r.solution is None else [inv(x) for x in r.solution]}
+        r = topological_sort(nodes_arg(), nb)
+        return r, {"status": r.status.name, "objective": r.objective,
+                   "order": None if r.solution is None else [inv(x) for x in r.solution]}
 
     def cond_call():
-        r = condense(nodes if case["label"] != "iter" else iter(nodes), nb)
+        r = condense(nodes_arg(), nb)
         cn, adjc = r.solution
         where = {}
         for i, fs in enumerate(cn):
             where.setdefault(fs, i)
         succ = [sorted(where[t] for t in adjc.get(fs, [])) for fs in cn]
-        return {"status": r.status.name, "objective": r.objective, "comps": [sorted(inv(x) for x in fs) for fs in cn],
-                "succ": succ, "n_keys": len(adjc), "dup_succ": any(len(set(adjc[k])) != len(adjc[k]) for k in adjc)}
+        comps = [[inv(x) for x in fs] for fs in cn]
+        comps = [c if any(isinstance(x, H.Unknown) for x in c) else sorted(c) for c in comps]
+        return r, {"status": r.status.name, "objective": r.objective, "comps": comps,
+                   "succ": succ, "n_keys": len(adjc), "dup_succ": any(len(set(adjc[k])) != len(adjc[k]) for k in adjc)}
 
-    out["scc"] = _norm(guarded(scc_call, timeout=5))
-    out["topo"] = _norm(guarded(topo_call, timeout=5))
-    out["cond"] = _norm(guarded(cond_call, timeout=5))
+    calls = [("scc", scc_call), ("topo", topo_call), ("cond", cond_call)]
+    es0 = None
     if case.get("edges_variant"):
-        n, es = len(case["nodes"]), edges_of(case)
+        n = len(case["nodes"])
+        ek = case.get("edges_kind", "list_tuples")
+        es = edges_of(case)
+        es = [list(e) for e in es] if ek == "list_lists" else (tuple(es) if ek == "tuple_tuples" else es)
+        es0 = copy.deepcopy(es)
 
-        def scc_e():
-            r = strongly_connected_components_edges(n, es, backend="python")
-            return {"status": r.status.name, "objective": r.objective, "comps": [list(c) for c in r.solution]}
+        es_t = [tuple(e) for e in es]                      # the declared type list[tuple[int, int]] (the Rust adapter insists on it)
 
-        def topo_e():
-            r = topological_sort_edges(n, es, backend="python")
-            return {"status": r.status.name, "objective": r.objective, "order": None if r.solution is None else list(r.solution)}
+        def mk_e(fn, key, be):
+            def call():
+                r = fn(n, es if be == "python" else es_t, backend=be)
+                if key == "comps":
+                    return r, {"status": r.status.name, "objective": r.objective, "comps": [list(c) for c in r.solution]}
+                return r, {"status": r.status.name, "objective": r.objective, "order": None if r.solution is None else list(r.solution)}
+            return call
 
-        out["scc_e"] = _norm(guarded(scc_e, timeout=5))
-        out["topo_e"] = _norm(guarded(topo_e, timeout=5))
+        calls += [("scc_e", mk_e(strongly_connected_components_edges, "comps", "python")),
+                  ("topo_e", mk_e(topological_sort_edges, "order", "python"))]
+        if "backend2" in case and not big:                # option corner: the other backend values, judged by the property only
+            from solvor.rust import rust_available
+            be = case["backend2"]
+            if be != "rust" or rust_available():
+                calls += [("scc_e2", mk_e(strongly_connected_components_edges, "comps", be)),
+                          ("topo_e2", mk_e(topological_sort_edges, "order", be))]
+
+    def one(fn):
+        def go():
+            (raw, can), _ = H.with_depth(need, fn) if need else (fn(), False)
+            return raw, can
+        res = guarded(go, timeout=20 if big else 5)
+        if res[0] == "ok":
+            return res[1][0], ("ok", res[1][1])
+        return None, _norm(res)
+
+    out, raws, alias = {}, {}, []
+    for name, fn in calls:
+        raws[name], out[name] = one(fn)
+
+    def inputs_changed(when):
+        if nodes != nodes0 or [type(x) for x in nodes] != [type(x) for x in nodes0]:
+            alias.append(f"the caller's node list was modified ({when})")
+        if adj != adj0:
+            alias.append(f"a neighbour list owned by the caller was modified ({when})")
+        if es0 is not None and es != es0:
+            alias.append(f"the caller's edge list was modified ({when})")
+
+    inputs_changed("by a call")
+    # the caller now modifies the results it got; neither its inputs nor later answers may change
+    for name, r in raws.items():
+        sol = getattr(r, "solution", None)
+        try:
+            if name.startswith("scc") and isinstance(sol, list):
+                for c in sol:
+                    if isinstance(c, list):
+                        c.append("<<caller>>")
+                sol.reverse()
+            elif name.startswith("topo") and isinstance(sol, list):
+                sol.reverse()
+                sol.append("<<caller>>")
+            elif name == "cond" and sol is not None:
+                for k in list(sol[1]):
+                    if isinstance(sol[1][k], list):
+                        sol[1][k].append("<<caller>>")
+                sol[0].reverse()
+        except Exception:  # noqa: BLE001
+            pass
+    inputs_changed("when the caller modified a returned solution")
+    if not big:
+        for name, fn in reversed(calls):
+            _, again = one(fn)
+            if json.dumps(again, sort_keys=True, default=_canon) != json.dumps(out[name], sort_keys=True, default=_canon):
+                alias.append(f"{name}: a second call on the same input objects (after the other functions, in the opposite order) "
+                             f"returned {str(again)[:150]} instead of {str(out[name])[:150]}")
+        inputs_changed("by a repeated call")
+    out["alias"] = alias
     return out
 
 
 # ---------------------------------------------------------------- independent oracle (the property itself)
 def induced(case):
-    ns = []
+    ns, s = [], set()
     for v in case["nodes"]:
-        if v not in ns:
+        if v not in s:
+            s.add(v)
             ns.append(v)
-    s = set(ns)
     adj = dict((u, ws) for u, ws in case["adj"])
     E = {(u, w) for u in ns for w in adj.get(u, []) if w in s}
     return ns, E
@@ -332,16 +456,30 @@ def oracle_cond(case, res):
     return None
 
 
-ORACLES = {"scc": oracle_scc, "topo": oracle_topo, "cond": oracle_cond, "scc_e": oracle_scc, "topo_e": oracle_topo}
+ORACLES = {"scc": oracle_scc, "topo": oracle_topo, "cond": oracle_cond, "scc_e": oracle_scc, "topo_e": oracle_topo,
+           "scc_e2": oracle_scc, "topo_e2": oracle_topo}
+
+
+def _unknown(res):
+    if res[0] != "ok":
+        return None
+    r = res[1]
+    xs = [x for c in r.get("comps", []) for x in c] + list(r.get("order") or [])
+    u = [x.r for x in xs if isinstance(x, H.Unknown)]
+    return f"the result contains {u[:3]} which is not a node of the input" if u else None
 
 
 def judge(case, outs):
     """[(which, description)] of property failures of the implementation on this case."""
-    bad = []
+    bad = [("alias", a) for a in outs.get("alias", [])]
+    if case.get("big") or len(set(case["nodes"])) > SMALL_ORACLE_N:
+        return bad + H.big_judge(case, outs)
     for which, res in outs.items():
-        if which in ("topo", "topo_e") and has_dup_nodes(case):
+        if which == "alias":
+            continue
+        if which.startswith("topo") and has_dup_nodes(case):
             continue                                  # property read for duplicate-free node iterables (noted)
-        d = ORACLES[which](case, res)
+        d = _unknown(res) or ORACLES[which](case, res)
         if d:
             bad.append((which, d))
     return bad
@@ -350,7 +488,7 @@ def judge(case, outs):
 def shrink(case, still_bad):
     """Greedy: drop nodes, adjacency entries, single neighbours while the oracle still rejects."""
     cur = json.loads(json.dumps(case))
-    changed = True
+    changed = len(cur["nodes"]) <= 40 and sum(len(ws) for _, ws in cur["adj"]) <= 200      # large structured instances are reported as they are
     while changed:
         changed = False
         cands = []
@@ -385,18 +523,18 @@ def c_comps(cs):
 
 
 def c_scc_obs(res):
-    return "None" if res[0] != "ok" else f"(Some {c_comps(res[1]['comps'])})"
+    return "None" if res[0] != "ok" or _unknown(res) else f"(Some {c_comps(res[1]['comps'])})"
 
 
 def c_topo_obs(res):
-    if res[0] != "ok":
+    if res[0] != "ok" or _unknown(res):
         return "None"
     o = res[1]["order"]
     return "(Some None)" if o is None else f"(Some (Some {clist(o)}))"
 
 
 def c_cond_obs(res):
-    if res[0] != "ok":
+    if res[0] != "ok" or _unknown(res):
         return "None"
     return f"(Some ({c_comps(res[1]['comps'])}, {c_comps(res[1]['succ'])}))"
 
@@ -419,28 +557,86 @@ def _corpus():
             o.setdefault("kind", "corpus")
             o.setdefault("label", "int")
             o.setdefault("edges_variant", False)
+            o["corpus_file"] = f.name
             out.append(o)
     return out
 
 
+def small_case(c):
+    return not c.get("big") and len(c["nodes"]) <= 40
+
+
+def event_search(rng, target, tries=4000):
+    """Directed search for a case on which the reference port reports `target` (random restarts + edge mutations)."""
+    best = None
+    for _ in range(tries):
+        c = gen_case(rng, False)
+        for _ in range(6):
+            if H.ref_events(c)[target]:
+                return c
+            ids = all_ids(c) or [0]
+            adj = {u: list(ws) for u, ws in c["adj"]}
+            u = rng.choice(c["nodes"] or [0])
+            adj.setdefault(u, []).insert(rng.randrange(len(adj.get(u, [])) + 1), rng.choice(ids + [max(ids) + 1]))
+            c = dict(c, adj=[[a, ws] for a, ws in sorted(adj.items()) if ws], edges_variant=False)
+            decorate(rng, c)
+    return best
+
+
 def run(ctx: Ctx):
-    ctx.rule = ("directed graphs on 1..8 nodes (thorough: ..24) from generators random/sparse/dense/dag(+one back edge)/single cycle/"
+    ctx.rule = ("directed graphs on 1..8 nodes (thorough: ..20) from generators random/sparse/dense/dag(+one back edge)/single cycle/"
                 "nested cycles/several weak parts, decorated with self loops, duplicate edges, neighbours outside the node set "
-                "(with and without own adjacency), shuffled node and neighbour orders, str/tuple/iterator labels, duplicate entries "
-                "in the node iterable (correspondence only); non-trivial = >=3 distinct nodes and an in-set edge between two "
-                "different nodes; distinct = canonical JSON of (nodes, adjacency)")
+                "(with and without own adjacency), shuffled node and neighbour orders, duplicate entries in the node iterable "
+                "(correspondence only); each case runs under a random label map (ints, big ints up to 10^18 built at call time, "
+                "None, False/0/0.0/''/()/frozenset(), strings/tuples/frozensets rebuilt on every call-back call, mixed types), random "
+                "iterable kinds (list/tuple/iterator/generator/dict view/range) for nodes and neighbour lists, the *_edges variants with "
+                "list/tuple edge containers and backend python/None/auto/rust; every function is called again in the opposite order "
+                "after the caller modified the first results, inputs compared with deep copies; ~35 structured large instances "
+                "(chains/cycles of 17..3000 nodes incl. 802 and 1025+, stars and parallel edges up to 65537, 2049 isolated nodes, "
+                "layered DAGs, one random 3000-node graph) judged by construction and by an iterative Kosaraju reference; "
+                "24 internal events of an instrumented port are counted and rare ones searched for; non-trivial = >=3 distinct "
+                "nodes and an in-set edge between two different nodes; distinct = canonical JSON of (nodes, adjacency)")
     ctx.proof_step(["C14"])
-    ctx.notes.append("model = code WITH the planned fix (Tarjan skips neighbours outside the node set); neighbours call-back = dict.get(v, [])")
+    ctx.notes.append("model = code WITH the fix (Tarjan skips neighbours outside the node set); neighbours call-back = dict.get(v, [])")
     ctx.notes.append("topological_sort judged by the oracle only for duplicate-free node iterables (with duplicates the code counts edges "
                      "per occurrence; model follows the code, correspondence still checked)")
     ctx.notes.append("condense: successor sets compared as sets, members of a condensed node (frozenset) compared sorted")
-    ctx.notes.append(f"Coq spec checkers are evaluated on the cases with <= {SPEC_MAX_N} distinct nodes (cost ~n^5); larger graphs: Python oracle + correspondence")
+    ctx.notes.append(f"Coq correspondence on cases with <= {COQ_MAX_N} nodes and <= {COQ_MAX_E} edges; Coq spec checkers on cases with <= {SPEC_MAX_N} "
+                     f"distinct nodes (cost ~n^5); brute-force closure oracle up to {SMALL_ORACLE_N} nodes, above that an independent linear-time "
+                     "reference (iterative Kosaraju) + answers known by construction")
+    ctx.notes.append("deep instances: the interpreter recursion limit is raised only when the default would not suffice for the DFS path "
+                     "(as the module docstring of solvor/scc.py tells callers to do); instances of depth 802..~940 run under the default limit")
+    ctx.notes.append("backend None/auto/rust of the *_edges variants are judged by the property (oracle) only; equivalence of back-ends is C12")
     ctx.notes.append("general theorems (Props/C14.v) are about the Gallina model; the model is tied to /repo by the correspondence lemmas of "
                      "this run; in addition the sound Coq checkers scc_check/topo_check/cond_check are evaluated in the kernel on the "
                      "implementation's own outputs (a per-run certificate about the explored cases, independent of the model)")
     big = ctx.tier == "thorough"
     nrand = ctx.budget(700, 12000)
-    cases = _corpus() + [dict(c) for c in FIXED] + [gen_case(ctx.rng, big) for _ in range(nrand)]
+    corpus = _corpus()
+    for c in corpus:                                       # committed witnesses also run under fresh random labels / iterables
+        if "labels" not in c and not c.get("big") and ctx.rng.random() < 0.5:
+            decorate(ctx.rng, c)
+    cases = corpus + [dict(c) for c in FIXED] + [gen_case(ctx.rng, big) for _ in range(nrand)]
+    # class H: events of the instrumented reference port; rare ones are searched for
+    seen_ev = dict.fromkeys(H.EVENTS, 0)
+    for c in cases:
+        if small_case(c):
+            for k, v in H.ref_events(c).items():
+                seen_ev[k] += 1 if v else 0
+    for c in corpus:
+        if c.get("event"):
+            ctx.count("corpus_event_still_fires", bool(H.ref_events(c).get(c["event"])))
+    for k in H.EVENTS:
+        if seen_ev[k] < 5:
+            for _ in range(5 - seen_ev[k]):
+                c = event_search(ctx.rng, k)
+                if c is not None:
+                    c["kind"] = "event:" + k
+                    cases.append(c)
+                    seen_ev[k] += 1
+    for k in H.EVENTS:
+        ctx.count("event_cases", k, seen_ev[k])
+    cases += H.big_cases(ctx.rng, big)
     outs = pmap(_work, cases)
 
     # open known findings of this class (none unless the coordinator lists one)
@@ -448,8 +644,27 @@ def run(ctx: Ctx):
 
     n_bad = 0
     for case, out in zip(cases, outs):
-        ctx.evaluations += len(out)
+        ctx.evaluations += 2 * (len(out) - 1) if not case.get("big") else len(out) - 1
+        if case.get("big"):
+            ctx.count("kind", case["kind"])
+            ctx.count("n_nodes_big", len(case["nodes"]))
+            ctx.count("label", case["label"])
+            ctx.count("nodes_kind", case.get("nodes_kind", "list"))
+            ctx.nontriv(case["family"])
+            bad = judge(case, out)
+            if bad:
+                n_bad += 1
+                which, desc = bad[0]
+                ctx.violation(f"{which}: {desc}", {"case": case, "function": which, "family": case["family"], "impl": str(out.get(which))[:300]})
+            continue
         ns, E = induced(case)
+        ctx.count("nodes_kind", case.get("nodes_kind", "list"))
+        ctx.count("nbr_kind", case.get("nbr_kind", "list"))
+        if case.get("label") == "pool":
+            for _, sp in case["labels"]:
+                ctx.count("pool_label", sp[0])
+        if "scc_e2" in out:
+            ctx.count("backend2", str(case.get("backend2")))
         ctx.count("kind", case["kind"])
         ctx.count("n_nodes", len(ns))
         ctx.count("label", case["label"])
@@ -483,7 +698,6 @@ def run(ctx: Ctx):
     ctx.count("cases_violating_oracle", n_bad)
 
     # ---- kernel-checked correspondence model vs implementation + Coq spec checkers on both outputs
-    gn = [f"({c_graph(c)}, {clist(c['nodes'])})" for c in cases]
     disagree = {}
 
     def chk(tag, ctype, fn, items, idxs):
@@ -491,7 +705,10 @@ def run(ctx: Ctx):
         for i in failing:
             disagree.setdefault(idxs[i], []).append(tag)
 
-    all_idx = list(range(len(cases)))
+    all_idx = [i for i, c in enumerate(cases)
+               if len(c["nodes"]) <= COQ_MAX_N and sum(len(ws) for _, ws in c["adj"]) <= COQ_MAX_E]
+    ctx.count("coq_correspondence_cases", len(all_idx), 1)
+    gn = {i: f"({c_graph(cases[i])}, {clist(cases[i]['nodes'])})" for i in all_idx}
     chk("scc", "(graph * list nat) * option (list (list nat))",
         "fun c => scc_obs_eqb (scc (fst (fst c)) (snd (fst c))) (snd c)",
         [f"({gn[i]}, {c_scc_obs(outs[i]['scc'])})" for i in all_idx], all_idx)
@@ -501,7 +718,7 @@ def run(ctx: Ctx):
     chk("cond", "(graph * list nat) * option (list (list nat) * list (list nat))",
         "fun c => cond_obs_eqb (condense (fst (fst c)) (snd (fst c))) (snd c)",
         [f"({gn[i]}, {c_cond_obs(outs[i]['cond'])})" for i in all_idx], all_idx)
-    ev = [i for i in all_idx if cases[i].get("edges_variant")]
+    ev = [i for i in all_idx if cases[i].get("edges_variant") and "scc_e" in outs[i]]
     chk("scc_edges", "(nat * list (nat * nat)) * option (list (list nat))",
         "fun c => scc_obs_eqb (scc_edges (fst (fst c)) (snd (fst c))) (snd c)",
         [f"(({len(cases[i]['nodes'])}, {c_edges(cases[i])}), {c_scc_obs(outs[i]['scc_e'])})" for i in ev], ev)
@@ -528,7 +745,7 @@ def run(ctx: Ctx):
         "&& (negb (nodupb (snd c)) || ocheck (topo_check (fst c) (snd c)) (topological_sort (fst c) (snd c))) "
         "&& ocheck (cond_check (fst c) (snd c)) (condense (fst c) (snd c))",
         [gn[i] for i in small], small)
-    ctx.traces_validated += len(cases)
+    ctx.traces_validated += len(all_idx)
     ctx.count("cases_disagreeing_with_model_or_spec", len(disagree))
 
     # ---- disagreement / broken proof without an oracle failure: search, then report
@@ -565,8 +782,9 @@ def replay(obj):
     outs = run_impl(case)
     bad = judge(case, outs)
     adj = {u: ws for u, ws in case["adj"]}
-    print(f"call: f({case['nodes']}, lambda v: {adj}.get(v, []))   [labels: {case['label']}]")
+    print(f"call: f({str(case['nodes'])[:400]}, lambda v: {str(adj)[:600]}.get(v, []))   [labels: {case['label']} {case.get('labels', '')}; "
+          f"nodes as {case.get('nodes_kind', 'list')}, neighbours as {case.get('nbr_kind', 'list')}; family: {case.get('family')}]")
     for k, v in outs.items():
-        print(f"  {k}: {v}")
+        print(f"  {k}: {str(v)[:600]}")
     print("oracle verdict:", bad or "ok")
     return 1 if bad else 0
